@@ -58,7 +58,7 @@ def write_cases(casedir, prefix, runner, variant, cases, chunk=400, preamble="")
         p = os.path.join(casedir, f"cases_{prefix}_{k // chunk}.v")
         with open(p, "w") as f:
             f.write("From Coq Require Import ZArith List Bool QArith Qcanon.\n")
-            f.write(f"From JV Require Import Kit.Field {variant}.{runner}.\nImport ListNotations.\n{preamble}\n")
+            f.write(f"From JV Require Import Kit.Field Kit.GenTypes {variant}.{runner}.\nImport ListNotations.\n{preamble}\n")
             f.write("Definition cases : list case := [\n" + ";\n".join(part) + "\n].\n")
             f.write("Eval vm_compute in (summary cases).\n")
         files.append(p)
